@@ -5,6 +5,11 @@
      shards <n>                 -> "<minkey>:<maxkey>:<count> ..."   one entry per shard
      shardidx <n>               -> "<idx> ... "                      shard_index_for n c, c = 0..63
      ranges <n> <key> ...       -> "<start>:<end> ..."               per-worker split of a sorted batch
+     regs <k> <minkey>:<maxkey>:<count> (k times) ok          -> "1" | "0"      ShardsGen.regions_okb
+     regs <k> <region> (k times) idx                          -> "<idx> ..."    ShardsGen.index_of_child, c = 0..63
+     regs <k> <region> (k times) ranges <key> ...             -> "<start>:<end> ..."  ShardsGen.ranges_of
+                                   the regions are the ones the REAL shard_regions returned (any
+                                   valid split, not only the mirror's)
      tnp <size> ...             -> "<pages> ..."                     total_needed_pages
      tnprange <lo> <hi>         -> "<pages> ..."                     total_needed_pages lo..hi (inclusive)
      bitops <a> <b>             -> "plen=<n> sep=<key>|panic la=<n> lb=<n> ls=<n>|-"
@@ -31,6 +36,31 @@ let handle (toks : string list) : string option =
       let ks = Stdlib.List.map key_of_string keys in
       let rs = Shards.ranges ks (nat_of_int (int_of_string n)) in
       Some (String.concat " " (Stdlib.List.map (fun (s, e) -> Printf.sprintf "%d:%d" (int_of_nat s) (int_of_nat e)) rs))
+  | "regs" :: k :: rest -> (
+      let rec split n l acc =
+        if n = 0 then (Stdlib.List.rev acc, l)
+        else match l with [] -> failwith "regs: fewer regions than announced" | x :: r -> split (n - 1) r (x :: acc)
+      in
+      let rs, sub = split (int_of_string k) rest [] in
+      let regs =
+        Stdlib.List.map
+          (fun e ->
+            match String.split_on_char ':' e with
+            | [ lo; hi; cnt ] ->
+                (* unary numbers: a count above 64 is refused by regions_okb whatever its value *)
+                ((key_of_string lo, key_of_string hi), nat_of_int (min (int_of_string cnt) 1000))
+            | _ -> failwith "regs: bad region")
+          rs
+      in
+      match sub with
+      | [ "ok" ] -> Some (if ShardsGen.regions_okb regs then "1" else "0")
+      | [ "idx" ] ->
+          Some (ints_line (Stdlib.List.init 64 (fun c -> int_of_nat (ShardsGen.index_of_child regs (nat_of_int c)))))
+      | "ranges" :: keys ->
+          let ks = Stdlib.List.map key_of_string keys in
+          let r = ShardsGen.ranges_of regs ks in
+          Some (String.concat " " (Stdlib.List.map (fun (s, e) -> Printf.sprintf "%d:%d" (int_of_nat s) (int_of_nat e)) r))
+      | _ -> None)
   | "tnp" :: sizes ->
       Some (ints_line (Stdlib.List.map (fun s -> int_of_n (Overflow.total_needed_pages (n_of_int (int_of_string s)))) sizes))
   | [ "tnprange"; lo; hi ] ->
